@@ -92,6 +92,57 @@ def morton_cells(tier, parts):
     return cells
 
 
+def strided_cells(tier, parts):
+    cells = []
+    for n in (1, 2, 3, 4):
+        if "formula" in parts:
+            for sname, sty in (("size_t", "size_t"), ("unsigned", "unsigned")):
+                for fl in ("debug", "ndebug"):
+                    cells.append(Cell("strided.formula.N%d.%s.%s" % (n, sname, fl), "strided", "h_strided_at",
+                                      defines={"DIMS_IN": n, "IN_SCALAR_T": sty, "VERIF_B_NODOMAIN": 1}, flavour=fl,
+                                      enforce="strided_at", unwind=5, backends=(("cvc5", 120), ("sat", 60)),
+                                      closes_loops="unwinding to the template constant N (complete)",
+                                      note="ring identity at full width, no bound on the extents", replay="strided"))
+        if "bound8" in parts:
+            d8 = {"DIMS_IN": n, "IN_SCALAR_T": "uint8_t", "VERIF_SIZE_T": "uint8_t", "WIDE_T": "unsigned",
+                  "VERIF_STRIDED_BOUND": 1, "VERIF_EXTENT_MAX": 255, "VERIF_PROD_MAX": 255}
+            for fl in ("debug", "ndebug"):
+                cells.append(Cell("strided.bound8.N%d.%s" % (n, fl), "strided", "h_strided_at", defines=d8, flavour=fl,
+                                  enforce="strided_at", unwind=5, backends=(("sat", 300), ("cadical", 300)),
+                                  extra_checks=["--conversion-check"],
+                                  closes_loops="unwinding to the template constant N (complete)",
+                                  note="8-bit instantiation of the same text: flat position < number of cells, no truncation, for all extents with product <= 255",
+                                  replay=None))
+            cells.append(Cell("strided.injective8.N%d" % n, "strided", "h_strided_injective", defines=d8,
+                              replace=["strided_at"], unwind=5, backends=(("sat", 600), ("cadical", 600)),
+                              closes_loops="harness loop over N (complete)",
+                              note="8-bit instantiation: injectivity over the contract", replay=None))
+        if "bounded64" in parts:
+            variants = [(16 if n <= 3 else 4, "")]
+            if tier == "thorough" and n == 4:
+                variants.append((16, ".e16"))
+            for emax, suffix in variants:
+                d64 = {"DIMS_IN": n, "IN_SCALAR_T": "size_t", "WIDE_T": "size_t",
+                       "VERIF_STRIDED_BOUND": 1, "VERIF_EXTENT_MAX": emax, "VERIF_PROD_MAX": emax ** n}
+                be = (("cadical", 900), ("sat", 600)) if n == 4 else (("sat", 300), ("cadical", 600))
+                cells.append(Cell("strided.bounded64.N%d%s" % (n, suffix), "strided", "h_strided_at", defines=d64,
+                                  enforce="strided_at", unwind=5, backends=be,
+                                  extra_checks=["--unsigned-overflow-check", "--conversion-check"], kind="bounded",
+                                  bound="every extent <= %d (64-bit types)" % emax,
+                                  closes_loops="unwinding to the template constant N (complete)", replay="strided"))
+                if suffix == "":
+                    cells.append(Cell("strided.injective64b.N%d" % n, "strided", "h_strided_injective", defines=d64,
+                                      replace=["strided_at"], unwind=5, backends=be, kind="bounded",
+                                      bound="every extent <= %d (64-bit types)" % emax, closes_loops="harness loop over N (complete)"))
+        if "alloc" in parts:
+            for which in ("copy", "ctor", "conf"):
+                cells.append(Cell("strided.alloc.%s.N%d" % (which, n), "strided", "h_strided_alloc_%s" % which,
+                                  defines={"DIMS_IN": n, "IN_SCALAR_T": "size_t", "VERIF_B_NODOMAIN": 1},
+                                  enforce="strided_alloc_size_%s" % which, unwind=5, backends=(("cvc5", 120), ("sat", 60)),
+                                  closes_loops="accumulate stub loop over N (complete)"))
+    return cells
+
+
 # ------------------------------------------------------------------ C18
 def cells_C18(tier, consts):
     cells = []
@@ -148,6 +199,7 @@ PROPS["C18"] = {
 # ------------------------------------------------------------------ C14
 def cells_C14(tier, consts):
     cells = morton_cells(tier, ["index"])
+    cells += strided_cells(tier, ["formula"])
     return cells
 
 
@@ -156,6 +208,23 @@ PROPS["C14"] = {
     "consts": True,
     "explanation": "index maps of the storage-order layers extracted and verified against the published curves",
     "trusted_base": ["_pdep_u64 stub written from the Intel SDM pseudocode (stubs/pdep.h)"],
+    "assumptions": [],
+    "not_covered": [],
+}
+
+
+# ------------------------------------------------------------------ C01
+def cells_C01(tier, consts):
+    cells = morton_cells(tier, ["at", "injective", "sizing", "alloc"])
+    cells += strided_cells(tier, ["formula", "bound8", "bounded64", "alloc"])
+    return cells
+
+
+PROPS["C01"] = {
+    "cells": cells_C01,
+    "consts": True,
+    "explanation": "storage-order layers: index in bounds, index map injective, array backend returns element i of its own buffer",
+    "trusted_base": [],
     "assumptions": [],
     "not_covered": [],
 }
